@@ -317,7 +317,9 @@ func (m *canaryReleaseManager) doCanaryJump(c *RolloutContext) (jumped bool) {
 	// since we forbid adding or removing steps, currentStepIndex should always be valid
 	currentStep := c.Rollout.Spec.Strategy.Canary.Steps[canaryStatus.CurrentStepIndex-1]
 	// nextIndex=-1 means the release is done, nextIndex=0 is not used
-	if nextIndex := canaryStatus.NextStepIndex; nextIndex != util.NextBatchIndex(c.Rollout, canaryStatus.CurrentStepIndex) && nextIndex > 0 {
+	// nextIndex is user-editable: ignore a value beyond the steps instead of indexing with it
+	if nextIndex := canaryStatus.NextStepIndex; nextIndex != util.NextBatchIndex(c.Rollout, canaryStatus.CurrentStepIndex) && nextIndex > 0 &&
+		int(nextIndex) <= len(c.Rollout.Spec.Strategy.Canary.Steps) {
 		currentIndexBackup := canaryStatus.CurrentStepIndex
 		currentStepStateBackup := canaryStatus.CurrentStepState
 		// update the current and next stepIndex
